@@ -9,6 +9,8 @@ generate(seed) -> (files, desc)
     must_read       : build-definition files that must be read
     reconfigure     : {'arg': '-Dname=value', 'name', 'value'} an option change for a later `setup --reconfigure`
     configure       : the same for a later `meson configure` (name = the intro-buildoptions.json entry it must change)
+    test_setups     : None | {'names': [setup names], 'default': None | [project, name], 'env': {name: {project: {VAR: value}}},
+                       'meson_project': {project label: meson project name}}  (variables are named C15S_*)
     dumper_tests    : {test id: {'name', 'bench', 'exe': 'c'|'py', 'project'}}  tests whose program records argv/env/cwd
     features        : sorted feature cells
 
@@ -126,6 +128,80 @@ BUILTIN_PRINTED = [
 
 STR_VALUES = ['plain', 'two words', 'eq=sign', 'co:lon', 'com,ma', 'ümlaut', 'at@sign', 'x/y', '', 'a+b', '-dash', 'tab\tbed'.replace('\t', ' ')]
 ARR_ELEMS = ['a', 'bb', 'c c', 'd=e', 'f:g', 'ü', 'h/i']
+
+
+# ---- wave 7: install directories COMPOSED from option strings.  (expression, feature cell).  The right-hand components
+# are get_option() values or literals; whether they are relative or ABSOLUTE depends on the directory options of the
+# configuration (DIR_PROFILES), e.g. --prefix=/usr makes meson default sysconfdir to /etc.
+COMPOSED_DIRS: T.List[T.Tuple[str, str]] = [
+    ("get_option('prefix') / get_option('sysconfdir') / 'c15w7'", 'div:prefix/sysconfdir/lit'),
+    ("get_option('prefix') / get_option('datadir') / 'c15w7'", 'div:prefix/datadir/lit'),
+    ("get_option('prefix') / get_option('localstatedir')", 'div:prefix/localstatedir'),
+    ("get_option('prefix') / get_option('libdir') / 'c15w7'", 'div:prefix/libdir/lit'),
+    ("get_option('prefix') / get_option('sharedstatedir') / 'c15w7' / 'deep'", 'div:prefix/sharedstatedir/lit/lit'),
+    ("get_option('datadir') / get_option('sysconfdir')", 'div:datadir/sysconfdir'),
+    ("get_option('localstatedir') / 'lib' / 'c15w7'", 'div:localstatedir/lit/lit'),
+    ("get_option('sharedstatedir') / 'c15w7'", 'div:sharedstatedir/lit'),
+    ("get_option('sysconfdir') / 'c15w7.d'", 'div:sysconfdir/lit'),
+    ("'share' / get_option('sysconfdir') / 'c15w7'", 'div:lit/sysconfdir/lit'),
+    ("get_option('datadir') / '/opt/c15abs'", 'div:datadir/abs-literal'),
+    ("get_option('prefix') / 'opt' / get_option('bindir')", 'div:prefix/lit/bindir'),
+    ("join_paths(get_option('prefix'), get_option('sysconfdir'), 'c15w7j')", 'join_paths:prefix,sysconfdir,lit'),
+    ("join_paths(get_option('datadir'), 'c15w7j')", 'join_paths:datadir,lit'),
+    ("join_paths(get_option('localstatedir'), 'c15w7j')", 'join_paths:localstatedir,lit'),
+    ("get_option('prefix') / join_paths(get_option('sysconfdir'), 'c15w7k')", 'div:prefix/join_paths'),
+]
+
+# directory options of one configuration: (label, {option: value}).  Absolute values outside the prefix are allowed for
+# sysconfdir / localstatedir / sharedstatedir only (Builtin-options.md).
+DIR_PROFILES: T.List[T.Tuple[str, T.Dict[str, str]]] = [
+    ('default', {}),
+    ('prefix=/usr', {'prefix': '/usr'}),
+    ('prefix+abs-sysconfdir', {'prefix': '/opt/c15x', 'sysconfdir': '/etc/c15x'}),
+    ('abs-localstatedir+sharedstatedir', {'localstatedir': '/var', 'sharedstatedir': '/var/lib/c15'}),
+    ('abs-sysconfdir+rel-localstatedir', {'sysconfdir': '/etc', 'localstatedir': 'var/rel', 'datadir': 'share/dd7'}),
+    ('rel-everything', {'prefix': '/usr', 'sysconfdir': 'etc/rel', 'localstatedir': 'var', 'sharedstatedir': 'com', 'libdir': 'lib7'}),
+]
+
+# install functions a composed directory is used with: (kind, files needed below <base>, one statement per use)
+COMPOSED_USES = ('install_data', 'install_data:rename', 'install_headers', 'install_man', 'install_subdir', 'custom_target',
+                 'custom_target:list', 'configure_file', 'install_symlink', 'install_emptydir')
+
+
+def composed_use(kind: str, expr: str, base: str, k: int, tag: T.Optional[str]) -> T.Tuple[T.Dict[str, str], T.List[str]]:
+    """One install statement of `kind` whose directory is `expr` (files it needs, lines).  `py` and `gen_tool` must be
+    defined by the project for the custom_target kinds."""
+    files: T.Dict[str, str] = {}
+    tg = f", install_tag: {mstr(tag)}" if tag else ''
+    if kind == 'install_data':
+        files[f'{base}/d{k}.txt'] = f'w7 data {k}\n'
+        return files, [f"install_data('{base}/d{k}.txt', install_dir: {expr}{tg})"]
+    if kind == 'install_data:rename':
+        files[f'{base}/r{k}.txt'] = f'w7 renamed data {k}\n'
+        return files, [f"install_data('{base}/r{k}.txt', install_dir: {expr}, rename: 'sub{k}/renamed{k}.txt'{tg})"]
+    if kind == 'install_headers':
+        files[f'{base}/h{k}.h'] = f'/* w7 header {k} */\n'
+        return files, [f"install_headers('{base}/h{k}.h', install_dir: {expr})"]
+    if kind == 'install_man':
+        files[f'{base}/m{k}.3'] = f'.\\" w7 man {k}\n'
+        return files, [f"install_man('{base}/m{k}.3', install_dir: {expr})"]
+    if kind == 'install_subdir':
+        files[f'{base}/tree{k}/f.txt'] = f'w7 tree {k}\n'
+        files[f'{base}/tree{k}/in/g.txt'] = f'w7 tree {k} inner\n'
+        return files, [f"install_subdir('{base}/tree{k}', install_dir: {expr}{tg})"]
+    if kind == 'custom_target':
+        return files, [f"custom_target('w7ct{k}', output: 'w7ct{k}.txt', command: [py, gen_tool, 'w7{k}', '@OUTPUT@'], "
+                       f"build_by_default: true, install: true, install_dir: {expr}{tg})"]
+    if kind == 'custom_target:list':
+        return files, [f"custom_target('w7cl{k}', output: ['w7cl{k}a.txt', 'w7cl{k}b.dat'], command: [py, gen_tool, 'w7l{k}', '@OUTPUT@'], "
+                       f"build_by_default: true, install: true, install_dir: [{expr}, 'share/w7lit'])"]
+    if kind == 'configure_file':
+        return files, [f"configure_file(output: 'w7cf{k}.h', configuration: {{'W7': {k}}}, install: true, install_dir: {expr}{tg})"]
+    if kind == 'install_symlink':
+        return files, [f"install_symlink('w7link{k}', pointing_to: 'target{k}', install_dir: {expr})"]
+    if kind == 'install_emptydir':
+        return files, [f"install_emptydir({expr} / 'w7empty{k}')"]
+    raise AssertionError(kind)
 
 
 def mstr(s: str) -> str:
@@ -760,6 +836,7 @@ class Gen:
             self.features.add('layout:flat')
         self.setup_args = a
         self.wave4(with_sp)
+        self.wave7(with_sp)
         if self.bsd and '--layout=flat' not in a:
             for lines, path in ((BA, 'app/meson.build'), (BL, 'meson.build')):
                 for ln in lines:
@@ -881,11 +958,96 @@ class Gen:
         if L:
             self.files['meson.build'] += '\n'.join(L) + '\n'
 
+    def wave7(self, with_sp: bool) -> None:
+        """Two more input classes (own RNGs: the rest of the project does not depend on them):
+        * install directories COMPOSED from option strings (COMPOSED_DIRS: `/` chains and join_paths() over get_option()
+          values and literals) x the install functions (COMPOSED_USES), under a directory-option profile (DIR_PROFILES) that
+          makes right-hand components absolute or relative;
+        * test setups: add_test_setup(env:) in the top project and in the subproject (same name, different values), a second
+          setup, optionally one of them `is_default: true`.  desc['test_setups'] tells the driver which variables a test of
+          which project must see under which setup."""
+        r7 = random.Random(f'c15-w7:{self.seed}')
+        L: T.List[str] = []
+        if r7.random() < 0.85:
+            label, prof = r7.choice(DIR_PROFILES[1:] + DIR_PROFILES[1:3] + DIR_PROFILES[:1])
+            given = {x[2:].split('=', 1)[0] for x in self.setup_args if x.startswith('-D')}
+            for name, val in prof.items():
+                if name not in given:
+                    self.setup_args.append(f'-D{name}={val}')
+            self.features.add('dir-profile:' + label)
+            eff = {x[2:].split('=', 1)[0]: x.split('=', 1)[1] for x in self.setup_args if x.startswith('-D')}
+            for name in ('sysconfdir', 'localstatedir', 'sharedstatedir'):
+                v = eff.get(name)
+                self.features.add(f'dir-option:{name}:' + ('abs' if v is not None and v.startswith('/') else 'abs-by-prefix'
+                                                          if v is None and eff.get('prefix') == '/usr' else 'rel'))
+            uses = r7.sample(list(COMPOSED_USES), r7.randint(3, 6))
+            for k, kind in enumerate(uses):
+                expr, cell = r7.choice(COMPOSED_DIRS)
+                files, lines = composed_use(kind, expr, 'w7', k, r7.choice([None, None, 'w7tag']))
+                self.files.update(files)
+                L += lines
+                self.features.add(f'composed-install-dir:{kind.split(":")[0]}:{cell}')
+            if r7.random() < 0.5:
+                expr, cell = r7.choice(COMPOSED_DIRS)
+                self.files['w7/w7main.c'] = 'int main(void) { return 0; }\n'
+                L.append(f"executable('c15w7exe', 'w7/w7main.c', install: true, install_dir: {expr})")
+                self.features.add('composed-install-dir:executable:' + cell)
+            if with_sp and r7.random() < 0.5:
+                expr, cell = r7.choice(COMPOSED_DIRS)
+                files, lines = composed_use('install_data', expr, 'w7sp', 0, None)
+                for pth, txt in files.items():
+                    self.files['subprojects/sp/' + pth] = txt
+                self.files['subprojects/sp/meson.build'] += '\n'.join(lines) + '\n'
+                self.features.add('composed-install-dir:subproject:' + cell)
+        r8 = random.Random(f'c15-w7s:{self.seed}')
+        self.test_setups: T.Optional[dict] = None
+        if r8.random() < 0.75:
+            projs = ['top'] + (['sp'] if with_sp else [])
+            names = ['c15s', 'c15other']
+            default: T.Optional[T.List[str]] = None
+            if r8.random() < 0.4:
+                default = [r8.choice(projs), r8.choice(names)]
+            env: T.Dict[str, T.Dict[str, T.Dict[str, str]]] = {}
+            for proj in projs:
+                lines: T.List[str] = []
+                for n in names:
+                    ev = {'C15S_WHO': f'{proj} {n}', 'C15S_' + n.upper(): r8.choice(['v', 'two words', 'a=b', 'x;y', ''])}
+                    if r8.random() < 0.5:
+                        ev['C15S_X' + str(r8.randint(0, 3))] = r8.choice(STR_VALUES)
+                    env.setdefault(n, {})[proj] = ev
+                    form = r8.choice(['dict', 'list', 'object'])
+                    kw: T.List[str] = []
+                    if form == 'dict':
+                        kw.append('env: {' + ', '.join(f'{mstr(k)}: {mstr(v)}' for k, v in ev.items()) + '}')
+                    elif form == 'list':
+                        kw.append('env: ' + mlist([mstr(k + '=' + v) for k, v in ev.items()]))
+                    else:
+                        var = f'c15se_{n}'
+                        lines.append(f'{var} = environment()')
+                        lines += [f'{var}.set({mstr(k)}, {mstr(v)})' for k, v in ev.items()]
+                        kw.append(f'env: {var}')
+                    self.features.add('test-setup:env-' + form)
+                    if default == [proj, n]:
+                        kw.append('is_default: true')
+                        self.features.add('test-setup:is_default:' + proj)
+                    if r8.random() < 0.3:
+                        kw.append(f'timeout_multiplier: {r8.choice([2, 3])}')
+                    lines.append(f"add_test_setup({mstr(n)}, {', '.join(kw)})")
+                if proj == 'top':
+                    L += lines
+                else:
+                    self.files['subprojects/sp/meson.build'] += '\n'.join(lines) + '\n'
+            self.test_setups = {'names': names, 'default': default, 'env': env, 'meson_project': {'top': 'c15 top', 'sp': 'sp'}}
+            self.features.add('test-setup')
+        if L:
+            self.files['meson.build'] += '\n'.join(L) + '\n'
+
     def desc(self) -> dict:
         return {'seed': str(self.seed), 'setup_args': self.setup_args, 'printed': self.printed,
                 'never_read': sorted(self.never_read), 'must_read': sorted(set(self.must_read)),
                 'dumper_tests': self.dumper_tests, 'features': sorted(self.features),
-                'reconfigure': self.reconfigure, 'configure': self.configure}
+                'reconfigure': self.reconfigure, 'configure': self.configure,
+                'test_setups': self.test_setups}
 
 
 def generate(seed: T.Union[int, str], size: str = 'normal') -> T.Tuple[T.Dict[str, str], dict]:
